@@ -143,6 +143,11 @@ class M(Model):
                 dq.append(nxt)
         return None
 
+    # ---- C11: the episode ends when the "agent has collected all pellets", "touches a ghost" or at the limit
+    def early_end_explained(self, states, actions):
+        s = states[-1]
+        return bool(s.dead) or len(self._live(s, s.pellet_locations)) == 0
+
     def mask_guard(self, s):
         # entry 4 (no-op) is hard-wired to False although a no-op is executable; the docs define the
         # mask only through wall blocking, so "legal" is undefined for it
